@@ -115,12 +115,12 @@ func c22AddToEE(msg, exts []byte, front bool) []byte {
 	return append(out, body...)
 }
 
-var hrrRandom = []byte{0xCF, 0x21, 0xAD, 0x74, 0xE5, 0x9A, 0x61, 0x11, 0xBE, 0x1D, 0x8C, 0x02, 0x1E, 0x65, 0xB8, 0x91,
+var hrrRandom_c22 = []byte{0xCF, 0x21, 0xAD, 0x74, 0xE5, 0x9A, 0x61, 0x11, 0xBE, 0x1D, 0x8C, 0x02, 0x1E, 0x65, 0xB8, 0x91,
 	0xC2, 0xA2, 0x11, 0x16, 0x7A, 0xBB, 0x8C, 0x5E, 0x07, 0x9E, 0x09, 0xE2, 0xC8, 0xA8, 0x33, 0x9C}
 
 // c22AddToSH appends extension bytes to a ServerHello (not a HelloRetryRequest).
 func c22AddToSH(msg, exts []byte) []byte {
-	if len(msg) < 4+2+32+1 || msg[0] != 2 || bytes.Equal(msg[6:38], hrrRandom) {
+	if len(msg) < 4+2+32+1 || msg[0] != 2 || bytes.Equal(msg[6:38], hrrRandom_c22) {
 		return msg
 	}
 	p := 4 + 2 + 32
